@@ -42,6 +42,7 @@ type paceLoop struct {
 	schedule func(t int64) float64 // nil for the constant pacer
 	per, frq int64                 // constant pacer
 	horizon  func(t int64) bool    // stop the loop here (linear pacer leaving its domain)
+	always   bool                  // run in every tier and for every seed
 }
 
 func divWitness(a, b uint64) KV {
@@ -63,11 +64,16 @@ func constantLoop(freq int, per time.Duration) *paceLoop {
 }
 
 func sineLoop(period time.Duration, mean, amp int, offset float64) *paceLoop {
-	sp := vegeta.SinePacer{Period: period, Mean: vegeta.Rate{Freq: mean, Per: time.Second}, Amp: vegeta.Rate{Freq: amp, Per: time.Second}, StartAt: offset}
+	return sineLoopPer(period, mean, amp, time.Second, offset)
+}
+
+// sineLoopPer: mean and amplitude in hits per `per` (rates whose interval is not a whole number of nanoseconds, or below one)
+func sineLoopPer(period time.Duration, mean, amp int, per time.Duration, offset float64) *paceLoop {
+	sp := vegeta.SinePacer{Period: period, Mean: vegeta.Rate{Freq: mean, Per: per}, Amp: vegeta.Rate{Freq: amp, Per: per}, StartAt: offset}
 	invalid := period <= 0 || mean <= 0 || amp >= mean
-	m, a, p := float64(mean)/1e9, float64(amp)/1e9, float64(period)
-	kv := KV{"kind": "sine", "invalid": invalid, "unlimited": false,
-		"text": fmt.Sprintf("Sine{period %s mean %d/s amp %d/s offset %.4f}", period, mean, amp, offset)}
+	m, a, p := float64(mean)/float64(per), float64(amp)/float64(per), float64(period)
+	kv := KV{"kind": "sine", "invalid": invalid, "unlimited": false, "qe4": int64(math.Ceil((m + math.Abs(a)) * 1e4)),
+		"text": fmt.Sprintf("Sine{period %s mean %d/%s amp %d/%s offset %.4f}", period, mean, per, amp, per, offset)}
 	return &paceLoop{kind: "sine", pacer: sp, reset: kv, schedule: func(t int64) float64 {
 		// H = M t + (A P / 2pi) (cos(O) - cos(O + 2 pi t / P))
 		return m*float64(t) + a*p/(2*math.Pi)*(math.Cos(offset)-math.Cos(offset+2*math.Pi*float64(t)/p))
@@ -221,6 +227,18 @@ func TestDrv_C01(t *testing.T) {
 			}
 		}
 	}
+	// means whose interval is fractional or below a nanosecond, flat and swinging
+	for _, mp := range []struct {
+		mean int
+		per  time.Duration
+	}{{7, 10}, {3, 10}, {300000007, time.Second}, {1500, time.Microsecond}, {70000, time.Second}, {3, time.Minute}} {
+		for _, ratio := range []float64{0, .5} {
+			pl := sineLoopPer([]time.Duration{time.Millisecond, time.Second}[r.Intn(2)], mp.mean, int(float64(mp.mean)*ratio), mp.per,
+				[]float64{vegeta.MeanUp, vegeta.Peak, vegeta.MeanDown, vegeta.Trough}[r.Intn(4)])
+			pl.always = true
+			loops = append(loops, pl)
+		}
+	}
 	for _, bad := range [][3]int{{0, 100, 90}, {60, 0, 90}, {60, 100, 110}, {-10, 100, 90}, {60, -10, 90}, {60, 100, 100}} {
 		loops = append(loops, sineLoop(time.Duration(bad[0])*time.Second, bad[1], bad[2], 0))
 	}
@@ -256,6 +274,7 @@ func TestDrv_C01(t *testing.T) {
 	off := int(seed() % int64(take))
 	for i, pl := range loops {
 		special := pl.kind == "constant" && (pl.frq <= 0 || pl.per <= 0 || pl.frq > 1000000 || pl.per > time.Hour.Nanoseconds() || pl.per < 1000)
+		special = special || pl.always
 		if (i+off)%take != 0 && !special && !(pl.reset["invalid"] == true) {
 			continue
 		}
